@@ -197,3 +197,26 @@ func (c *VHLinkCache) GetLinkAddress(nicid tcpip.NICID, addr, localAddr tcpip.Ad
 func (c *VHLinkCache) RemoveWaker(nicid tcpip.NICID, addr tcpip.Address, waker *sleep.Waker) {
 	c.Wakers++
 }
+
+// VHProtoV4 is a capture network protocol registered under the IPv4 number: every endpoint
+// it creates is the shared capture endpoint EP (so packets routed by Stack.FindRoute land in
+// EP.Sent).
+type VHProtoV4 struct{ EP *VHNet }
+
+func (p *VHProtoV4) Number() tcpip.NetworkProtocolNumber { return 0x0800 }
+func (p *VHProtoV4) MinimumPacketSize() int              { return 20 }
+func (p *VHProtoV4) ParseAddresses(v buffer.View) (src, dst tcpip.Address) {
+	return tcpip.Address(v[12:16]), tcpip.Address(v[16:20])
+}
+func (p *VHProtoV4) NewEndpoint(nicid tcpip.NICID, addr tcpip.Address, lc LinkAddressCache, d TransportDispatcher, l LinkEndpoint) (NetworkEndpoint, *tcpip.Error) {
+	p.EP.Id = NetworkEndpointID{addr}
+	p.EP.Nic = nicid
+	return p.EP, nil
+}
+func (p *VHProtoV4) SetOption(interface{}) *tcpip.Error { return nil }
+func (p *VHProtoV4) Option(interface{}) *tcpip.Error    { return nil }
+
+// VHDefaultRoute installs a single default route through the given interface.
+func VHDefaultRoute(s *Stack, nic tcpip.NICID) {
+	s.routeTable = []tcpip.Route{{Destination: "\x00\x00\x00\x00", Mask: "\x00\x00\x00\x00", NIC: nic}}
+}
